@@ -7,7 +7,9 @@ VALS = ["x", " y ", "a b", "{{a|q}}", " {{a|r}} ", "{{sp}}", "p{{sp}}q", "{{#if:
 NAMES = ["k", "K two", "z", "1", "2", "3", "x"]
 FRAGS = ["text", "{{a|x}}", "{{a|{{a|y}}}}", "{{{1}}}", "{{{1|d}}}", "{{nosuch|q}}", "{{#if:x|y|z}}", "{{#switch:b|a=1|b=2}}",
          "<nowiki>{{a}}</nowiki>", "[[link|{{a|z}}]]", "{{b|p|x=q}}", "{{lc:ABC}}", "{{PAGENAME}}", "a {{sp}} b", "{{star}}",
-         "{{s|1|2|k=3}}", "{{#expr:1+2}}", "{{s| m |k= n }}", "''i'' {{a|'''b'''}}", "{{a|x=y}}"]
+         "{{s|1|2|k=3}}", "{{#expr:1+2}}", "{{s| m |k= n }}", "''i'' {{a|'''b'''}}", "{{a|x=y}}",
+         # parser functions with calls in their branches (c08_preprocess_of_if_ifeq_switch_is_expansion_on_the_page)
+         "{{#if:x| {{a|p}} |{{b|q}}}}", "{{#if: |{{a|p}}|{{b|q}} {{a|r}}}}", "{{#ifeq:1|01|{{a|y}}|n}}", "{{#switch:b|a={{a|1}}|b= {{a|2}} }}"]
 PFS = [("#if", [["x", "t", "f"], ["", "t", "f"], [" ", "a"]]), ("lc", [["ABC"], [" Ab "]]), ("uc", [["abc"]]),
        ("#expr", [["1+2"], ["2*(3+4)"]]), ("padleft", [["x", "5"], ["x", "6", "ab"]]), ("#len", [["hello"]]),
        ("#switch", [["b", "a=1", "b=2"], ["q", "a=1", "#default=d"]]), ("ucfirst", [["abc"]]), ("#ifeq", [["a", "a", "y", "n"]]),
